@@ -42,12 +42,12 @@ ASSUMPTIONS = [
     "kernel (a): graphs, neighbour orders and start orders are enumerated as engine decisions; this part is exhaustive exploration, not a solver verdict",
 ]
 BOUNDS = {
-    "quick": "(b) 9 graph shapes x task kinds {E,F,K} per node (<=4 tasks) x all registration orders x {no history, one task unregistered, one task re-bound to another input} x 6 assigned locations x all start-set orders; "
+    "quick": "(b) 10 graph shapes x task kinds {E,F,K} per node (<=4 tasks) x all registration orders x {no history, one task unregistered, one task re-bound to another input; for 3 shapes also: one task registered only after that edit} x 6 assigned locations x all start-set orders; "
              "(a) toposort on all digraphs with N<=3 nodes, all neighbour orders, all ordered start subsets",
     "thorough": "(b) same on both builds plus 2 five-task shapes; (a) N=4 with label-order neighbours and all start subsets",
 }
 OUTSIDE = "more than 5 tasks; register-time iteration order of dependency sets (covered through 'all registration orders' only)"
-REQUIRED_CLASSES = ["update_checked", "order_checked", "cyclic_checked", "idle_checked", "kernel"]
+REQUIRED_CLASSES = ["update_checked", "order_checked", "cyclic_checked", "idle_checked", "kernel", "late_registration"]
 PROFILE_CASES = 4
 TASKS_PER_CHILD = 40
 LOCS = ["a", "b", "c", "n.x", "l0", "l1"]
@@ -63,6 +63,8 @@ SHAPES = {
     "independent": [("b", ["a"]), ("l0", ["c"])],
     "cycle2": [("b", ["a"]), ("a", ["b"]), ("c", ["b"])],
     "list_siblings": [("l0", ["a"]), ("b", ["l1"])],
+    # two writers of different members of one container and a reader of a third member (depends on the container)
+    "sibling_writers": [("n.x", ["a"]), ("n.y", ["b"]), ("c", ["n.z"])],
 }
 SHAPES5 = {
     "ladder": [("b", ["a"]), ("c", ["a"]), ("n.x", ["b", "c"]), ("l0", ["n.x"]), ("l1", ["n.x", "b"])],
@@ -134,7 +136,10 @@ def run_manager(ex, case):
     perm = next(itertools.islice(itertools.permutations(order), ex.choose(_fact(len(order))), None))
     defs = {}
     objs = {}
-    for i in perm:
+    # optionally one task is registered only after the graph edit below (graph edits consult the indices)
+    late = ex.choose(len(shape)) if case.get("late") else None
+
+    def make(i):
         t, deps = shape[i]
         kind = kinds[i]
         tref = U.getref(r, t)
@@ -158,10 +163,16 @@ def run_manager(ex, case):
             task.targets = list(task.targets)
         m.register(task)
         objs[i] = (kind, t, deps, task)
+
+    for i in perm:
+        if i != late:
+            make(i)
     # optional history before the observed assignment: one task is removed or re-bound
     pm = case.get("premut")
     if pm is not None:
         i = ex.choose(len(shape))
+        if i == late:
+            return
         kind, t, deps, task = objs[i]
         try:
             m.unregister(task.taskid)
@@ -191,6 +202,9 @@ def run_manager(ex, case):
                 kind = "F"
             m.register(task2)
             objs[i] = (kind, t, [nd], task2)
+    if late is not None:
+        make(late)
+        note(ex, "late_registration")
     # the assignment under observation
     L = case["loc"]
     aref = U.getref(r, L)
@@ -372,6 +386,8 @@ def cases(tier):
                     if "K" not in kinds and (tier != "quick" or n <= 3):
                         for pm in ("unreg", "rebind"):
                             out.append({"mode": "manager", "build": b, "shape": name, "kinds": list(kinds), "loc": L, "premut": pm})
+                            if n == 3 and (tier != "quick" or name in ("sibling_writers", "nested", "chain")):
+                                out.append({"mode": "manager", "build": b, "shape": name, "kinds": list(kinds), "loc": L, "premut": pm, "late": True})
         # kernel
         for N in (1, 2, 3):
             for bits in itertools.product([0, 1], repeat=N * N):
